@@ -290,6 +290,24 @@ def d4(chk, prog):
         labelled = isinstance(out, Vec) and (out.labels == dl or (not drows and not out.v))
         tbk.cell(ok and labelled, dict(destination=dlabel, source=slabel, values=list(out.v) if isinstance(out, Vec) else repr(out)[:80], want=want,
                                        result_labels=getattr(out, "labels", None), destination_labels=dl))
+    # the GenomicArray method: same contract, also when the column is missing (every range gets the default)
+    fm = prog.fn("skgenome.gary.GenomicArray.into_ranges")
+    for col in ("v", "absent"):
+        W.reset()
+        it = Interp(prog)
+        drows = dests["two hits / one hit / none / other chromosome"]
+        dl = [7, 3, 11, 2, 5]
+        dga, sga = GA("GenomicArray", mkt(drows, dl), len(drows), {}), GA("GenomicArray", mkt(src_full, [20 + i for i in range(len(src_full))]), len(src_full), {})
+        out = tbk.guard(lambda: it.run_method(sga, "into_ranges", [dga, col, "DEFAULT", (lambda ser: ("SUMMARY",) + tuple(ser.v))]), f"method, column {col}")
+        if out is None:
+            continue
+        want = []
+        for c, s_, e_, _ in drows:
+            hits = [r[3] for r in src_full if r[0] == c and r[2] > s_ and r[1] < e_] if col == "v" else []
+            want.append("DEFAULT" if not hits else (hits[0] if len(hits) == 1 else ("SUMMARY",) + tuple(hits)))
+        ok = isinstance(out, Vec) and list(out.v) == want and out.labels == dl and bool(out.aligned)
+        tbk.cell(ok, dict(method="GenomicArray.into_ranges", column=col, values=list(out.v) if isinstance(out, Vec) else repr(out)[:80], want=want,
+                          result_labels=getattr(out, "labels", None), fresh_index=getattr(out, "fresh", None), destination_labels=dl))
     tbk.done("into_ranges does not return one value per destination row (default / the value / the summary), as a Series labelled like the destination rows")
     # dispatch table by abstract interpretation
     W.reset()
@@ -506,6 +524,7 @@ def run(chk):
 
 _I = "skgenome/intersect.py"
 MUTANTS = [
+    dict(name="regress: method default path on a fresh index (pre-fix code)", file="skgenome/gary.py", old="            return pd.Series(np.repeat(default, len(other)), index=other.data.index)", new="            return pd.Series(np.repeat(default, len(other)))"),
     dict(name="regress: into_ranges returns its values on a fresh 0..n-1 index (pre-fix code)", edits=[("skgenome/intersect.py", "        return pd.Series([default] * len(dest), index=dest.index)", "        return pd.Series([default] * len(dest))"), ("skgenome/intersect.py", "    return pd.Series(result, index=dest.index)", "    return pd.Series(result)")]),
     dict(name="twin: trim clips through assign", expect="silent", file=_I, old="            if start_val:\n                subtable.start = subtable.start.clip(lower=start_val)", new="            if start_val:\n                subtable = subtable.assign(start=subtable.start.clip(lower=start_val))"),
     dict(name="seeded C07c: one-chromosome shortcut when the other table merely covers it", file=_I, old="    if len(table_chr) == 1 and table_chr == other_chr:", new="    if len(table_chr) == 1 and table_chr <= other_chr:"),
